@@ -387,22 +387,28 @@ func AppendUnquote(dst, src []byte) (v []byte, err error) {
 
 // hasEscapedUTF16Prefix reports whether b is possibly
 // the truncated prefix of a \uFFFF escape sequence.
-func hasEscapedUTF16Prefix(b []byte, lowerSurrogateHalf bool) bool {
+func hasEscapedUTF16Prefix[Bytes ~[]byte | ~string](b Bytes, lowerSurrogateHalf bool) bool {
+	return escapedUTF16PrefixLen(b, lowerSurrogateHalf) == len(b)
+}
+
+// escapedUTF16PrefixLen returns the length of the longest prefix of b
+// that is possibly the truncated prefix of a \uFFFF escape sequence.
+func escapedUTF16PrefixLen[Bytes ~[]byte | ~string](b Bytes, lowerSurrogateHalf bool) int {
 	for i := range len(b) {
 		switch c := b[i]; {
 		case i == 0 && c != '\\':
-			return false
+			return i
 		case i == 1 && c != 'u':
-			return false
+			return i
 		case i == 2 && lowerSurrogateHalf && c != 'd' && c != 'D':
-			return false // not within ['\uDC00':'\uDFFF']
+			return i // not within ['\uDC00':'\uDFFF']
 		case i == 3 && lowerSurrogateHalf && !('c' <= c && c <= 'f') && !('C' <= c && c <= 'F'):
-			return false // not within ['\uDC00':'\uDFFF']
+			return i // not within ['\uDC00':'\uDFFF']
 		case i >= 2 && i < 6 && !('0' <= c && c <= '9') && !('a' <= c && c <= 'f') && !('A' <= c && c <= 'F'):
-			return false
+			return i
 		}
 	}
-	return true
+	return len(b)
 }
 
 // UnquoteMayCopy returns the unescaped form of b.
